@@ -3,9 +3,11 @@
    environment.  Proved: an idle, connected connection turns a send into exactly one write of the
    bytes of the referenced buffers; a send while a write is in flight is refused and leaves the
    model (that is where the library drops or corrupts a response: open findings F06/F07, and F10 for
-   responses issued after the handler has returned).  The ordered-concatenation statement over whole
-   histories is decided against the code by the history correspondence and the wire monitor. *)
-From Via Require Import M_Char M_Encode M_Parse M_Receive M_Server P_Server.
+   responses issued after the handler has returned).  Over whole histories: every write that completes
+   carries exactly the bytes that were issued, and a pending write's buffers are intact in every reachable
+   state (C03_completed_writes_carry_the_issued_bytes, C03_pending_write_intact).  The ordered-concatenation
+   statement is decided against the code by the history correspondence and the wire monitor. *)
+From Via Require Import M_Char M_Encode M_Parse M_Receive M_Server P_Server P_C09.
 Local Open Scope N_scope.
 
 Theorem C03_idle_send_writes_the_buffers : forall w c slots, c_transmitting c = false -> c_connected c = true ->
@@ -16,6 +18,17 @@ Theorem C03_send_while_transmitting_is_refused : forall w c slots, c_transmittin
   snd (fst (send_data w c slots)) = [LUndefined] /\ snd (send_data w c slots) = false.
 Proof. exact send_data_busy. Qed.
 
+(* every history - any interleaving of accepts, reads, completions, errors, application and server actions - up to
+   the first send-while-transmitting (where the model stops): no completed write finds its buffers rewritten *)
+Theorem C03_completed_writes_carry_the_issued_bytes : forall recipe_of o evs id,
+  ~ In (LStale id) (snd (run recipe_of o w_init evs)).
+Proof. exact never_stale. Qed.
+
+Theorem C03_pending_write_intact : forall recipe_of o evs c slots snap,
+  In c (w_conns (fst (run recipe_of o w_init evs))) -> c_write c = Some (slots, snap) ->
+  slots_bytes c slots = snap /\ c_transmitting c = true.
+Proof. exact pending_write_intact. Qed.
+
 Example C03_example_exchange :
   let cfg := mk_rcfg (mk_limits 8190 8 100 65534 1024 8 65534 65534 false) 1048576 1048576 true true false in
   let o := mk_sopts false 0 false false false false false cfg in
@@ -25,3 +38,5 @@ Example C03_example_exchange :
 Proof. vm_compute. eexists. split; [|split; [|reflexivity]]; repeat (first [left; reflexivity|right]). Qed.
 
 Print Assumptions C03_idle_send_writes_the_buffers.
+Print Assumptions C03_completed_writes_carry_the_issued_bytes.
+Print Assumptions C03_pending_write_intact.
